@@ -20,7 +20,7 @@ EXPL = ("hand-written explicit-state explorer (BFS, canonical-form de-duplicatio
         "primitives; oracle evaluated on every transition")
 chk("C01", "model_checking", EXPL + ": reference-interpreter equivalence on the whole control domain with symbolic data",
     "Bounded breadth-first exploration in phases (reported separately in the evidence): (A) 61 curated seed procedures x the complete finite menu of "
-    "(primitive, cursor/argument) events (all 57 exported primitives + 25 stdlib compositions), depth 1 (quick) / depth 2 with a reported state cap (thorough); "
+    "(primitive, cursor/argument) events (all 57 exported primitives + 25 stdlib compositions), depth 1 (the thorough tier uses the wider thorough menus); "
     "(B) a generated dependence family (13 x 13 ordered statement pairs under one loop) and (B2) a generated loop-nest family (3 outer x 6 inner bound shapes x 6 bodies) "
     "under the dependence-guarded primitives (complete menu in the thorough tier); (C) depth 2 from two small seeds (structure-creating first step, complete menu as second step). "
     "Quick = about 100k transitions. "
@@ -35,7 +35,7 @@ chk("C04", "model_checking", EXPL + ": structural validator + interpreter safety
     "and compiled: anything but success or a documented backend rejection is a violation.",
     "trusts validator and interpreter; T.Window type annotations are not part of the property and are not checked", "DESIGN.md §3 C04")
 chk("C06", "model_checking", EXPL + ": node-identity forwarding oracle on every statement / gap / block cursor, edge and chain level",
-    "For every transition p->q (including unsafe-flagged operations; curated seeds depth 1 + depth 2 from two small seeds in quick, depth 2 with state cap in thorough) every statement cursor, every gap and every block "
+    "For every transition p->q (including unsafe-flagged operations; curated seeds depth 1 + depth 2 from two small seeds; the thorough tier uses the wider thorough menus at depth 1) every statement cursor, every gap and every block "
     "(all contiguous ranges of statement lists of <= 6 statements) of p, and of every ancestor on the path from the seed, "
     "is forwarded to q; the result must be InvalidCursorError or resolve (fresh path walk) to the identical carried node object, never to a different carried statement, "
     "never dangling; a gap whose two neighbours are carried over and still adjacent must forward exactly between them, a block whose statements are carried over as one contiguous run must forward to exactly that run; implicit forwarding (passing the old cursor to an operation on q) must agree with explicit forwarding.",
